@@ -134,7 +134,7 @@ def replay_logic(data):
 
 # ------------------------------------------------------------------------------------------------ WaveSim product runs
 
-W_NLS = [wsim.E2E_NLS[0], wsim.E2E_NLS[2], wsim.E2E_NLS[3]]
+W_NLS = [wsim.E2E_NLS[2], wsim.E2E_NLS[3], wsim.E2E_NLS[0]]
 
 
 def fork_input_lines(c):
@@ -143,11 +143,13 @@ def fork_input_lines(c):
 
 def wave_jobs(tier):
     J = []
-    for k, nl in enumerate(W_NLS if tier == 'thorough' else W_NLS[:2]):
+    for k, nl in enumerate(W_NLS):
         sts = ['RF', 'FR', 'R1'] if tier == 'thorough' else ['RF']
         for st in sts:
-            for variant in ('options', 'sims', 'datasets'):
-                J.append((nl.to_json(), st, variant))
+            J.append((nl.to_json(), st, 'options'))
+            for cls in ('cpu', 'gpu'):
+                J.append((nl.to_json(), st, f'sims:{cls}'))
+                for sel in (0, 1): J.append((nl.to_json(), st, f'datasets:{cls}:{sel}'))
     return J
 
 
@@ -186,9 +188,9 @@ class SymWaveN(wsim.SymWave):
             for i, v in stim.items():
                 if ln == lane:
                     ini, fin = wsim.VAL[v]; t = self.tv[i]
-                else:
-                    ini, fin = wsim.VAL['RF'[(ln + i) % 2]]
-                    t = z3.Real(f'other{tag}{ln}_{i}'); eng.assume(t >= -100, t <= 100)
+                else:               # other lanes hold constants (no transitions: no extra branching), different per lane
+                    ini = fin = (ln + i) % 2
+                    t = z3.RealVal(ln)
                 s[0, i, ln] = ini; s[2, i, ln] = fin; s[1, i, ln] = T(0, t)
         w.s = s
 
@@ -222,13 +224,20 @@ def wave_job(job):
         bad = None
         if variant == 'options':
             dv, tv = mkvars(eng, 1, True)
-            ref = wsim.SymWave(eng, 'cpu', c, 8, stim, {}, dvars=dv, tvars=tv).run()
+            tc = z3.Real('tcap'); eng.assume(tc >= -200, tc <= 300)
+            ref = wsim.SymWave(eng, 'cpu', c, 8, stim, {}, dvars=dv, tvars=tv).run(capture_time=T(0, tc))
             r0 = _results(ref)
+            ref.w.s_ppo_to_ppi(time=0.5)
+            p0 = {(k, int(i)): ref.w.s[k, int(i), 0] for i in range(ref.w.s_len) for k in (0, 1, 2)}
             for cls in ('cpu', 'gpu'):
                 for reuse, strip in OPTS:
                     if (cls, reuse, strip) == ('cpu', False, False): continue
-                    sw = wsim.SymWave(eng, cls, c, 8, stim, {'c_reuse': reuse, 'strip_forks': strip}, dvars=dv, tvars=tv).run()
+                    sw = wsim.SymWave(eng, cls, c, 8, stim, {'c_reuse': reuse, 'strip_forks': strip}, dvars=dv, tvars=tv).run(capture_time=T(0, tc))
                     k = _same(eng, r0, _results(sw))
+                    if k is None:
+                        sw.w.s_ppo_to_ppi(time=0.5)
+                        k2 = _same(eng, p0, {(kk, int(i)): sw.w.s[kk, int(i), 0] for i in range(sw.w.s_len) for kk in (0, 1, 2)})
+                        if k2 is not None: bad = bad or (f'state transfer: s[{k2[0]}] of {c.s_nodes[k2[1]].name} differs between WaveSim and {wsim.CLS[cls].__name__}', {'cls': cls, 'reuse': reuse, 'strip': strip})
                     rep.counts['obligations'] += 1
                     if k is not None: bad = bad or (f's[{k[0]}] of {c.s_nodes[k[1]].name} differs between WaveSim() and {wsim.CLS[cls].__name__}(c_reuse={reuse}, strip_forks={strip})', {'cls': cls, 'reuse': reuse, 'strip': strip})
                     else: rep.counts['discharged'] += 1
@@ -238,11 +247,11 @@ def wave_job(job):
                             da, db = wsim.decode(a), wsim.decode(b)
                             if da[1] != db[1] or da[3] != db[3] or len(da[2]) != len(db[2]) or not all(eng.valid(x.e == y.e) for x, y in zip(da[2], db[2])):
                                 bad = (f'waveform of line {l.index} differs between WaveSim and {wsim.CLS[cls].__name__}', {'cls': cls, 'reuse': reuse, 'strip': strip})
-        elif variant == 'sims':
+        elif variant.startswith('sims'):
             dv, tv = mkvars(eng, 1, False)
             ref = wsim.SymWave(eng, 'cpu', c, 8, stim, {}, dvars=dv, tvars=tv).run()
             r0 = _results(ref)
-            for cls in ('cpu', 'gpu'):
+            for cls in (variant.split(':')[1],):
                 for nsims, lane in ((2, 1), (3, 0), (3, 2)):
                     sw = SymWaveN(eng, cls, c, 8, stim, {}, nsims, lane, dv, tv, tag=f'{cls}{nsims}{lane}').run()
                     k = _same(eng, r0, _results(sw, lane))
@@ -264,23 +273,27 @@ def wave_job(job):
         else:   # datasets
             ND = 2
             dv, tv = mkvars(eng, ND, False)
-            for cls in ('cpu', 'gpu'):
-                for sel in range(ND):
+            for cls in (variant.split(':')[1],):
+                for sel in (int(variant.split(':')[2]),):
                     dsel = {(0, l, p, q): dv[(sel, l, p, q)] for l in range(len(c.lines)) for p in range(2) for q in range(2)}
                     ref = wsim.SymWave(eng, cls, c, 8, stim, {}, dvars=dsel, tvars=tv).run()
                     r0 = _results(ref)
                     for mode in (0, 1):
-                        sw = wsim.SymWave(eng, cls, c, 8, stim, {}, dvars=dv, tvars=tv, ndata=ND)
-                        sw.w.simctl_int[1] = mode
-                        if mode == 1: sw.w.simctl_int[0] = sel
+                        if mode == 0:
+                            sw = wsim.SymWave(eng, cls, c, 8, stim, {}, dvars=dv, tvars=tv, ndata=ND)
+                            sw.w.simctl_int[1] = 0
+                        else:           # two lanes with different datasets; the lane of interest is lane 0
+                            sw = SymWaveN(eng, cls, c, 8, stim, {}, 2, 0, dv, tv, ndata=ND, tag='ds')
+                            sw.w.simctl_int[1] = 1
+                            sw.w.simctl_int[0] = [sel, 1 - sel]
                         sw.run(seed=sel if mode == 0 else 1)
                         k = _same(eng, r0, _results(sw))
                         rep.counts['obligations'] += 1
                         if k is not None: bad = bad or (f's[{k[0]}] with dataset {sel} selected by mode {mode} differs from simulating with that dataset alone ({cls})', {'cls': cls, 'sel': sel, 'selmode': mode})
                         else: rep.counts['discharged'] += 1
         if bad:
-            mdl = wsim.grid_model(eng, [v for v in list(dv.values()) + list(tv.values()) if not z3.is_rational_value(v)])
-            found.append(({'mode': 'wave', 'nl': nlj, 'stim': st, 'variant': variant, 'info': bad[1], 'dvals': [[list(k), wsim.fr(mdl, v)] for k, v in dv.items()], 'tvals': [[k, wsim.fr(mdl, v)] for k, v in tv.items()]}, bad[0]))
+            mdl = wsim.grid_model(eng, [v for v in list(dv.values()) + list(tv.values()) if not z3.is_rational_value(v)] + [z3.Real('tcap')])
+            found.append(({'mode': 'wave', 'nl': nlj, 'stim': st, 'variant': variant, 'info': bad[1], 'tcap': wsim.fr(mdl, z3.Real('tcap')), 'dvals': [[list(k), wsim.fr(mdl, v)] for k, v in dv.items()], 'tvals': [[k, wsim.fr(mdl, v)] for k, v in tv.items()]}, bad[0]))
         return 1
     try:
         eng.explore(fn)
@@ -313,14 +326,19 @@ def replay_wave(data):
     def res(w, lane=0): return {(k, int(i)): float(w.s[k, int(i), lane]) for i in w.poppo_s_locs for k in (3, 4, 5, 6, 7, 10)}
     try:
         if variant == 'options' or info.get('exception') and variant == 'options':
-            ref = wsim.concrete_wave('cpu', c, 8, stim, {}, dvals, tvals)
+            tc = np.float32(data.get('tcap', 0.0))
+            st3 = lambda w: [float(w.s[k, i, 0]) for i in range(w.s_len) for k in (0, 1, 2)]
+            ref = wsim.concrete_wave('cpu', c, 8, stim, {}, dvals, tvals, capture_time=tc)
+            r0 = res(ref); ref.s_ppo_to_ppi(time=0.5)
             out = []
             for cls in ('cpu', 'gpu'):
                 for reuse, strip in OPTS:
-                    w = wsim.concrete_wave(cls, c, 8, stim, {'c_reuse': reuse, 'strip_forks': strip}, dvals, tvals)
-                    if res(w) != res(ref): out.append((cls, reuse, strip))
+                    w = wsim.concrete_wave(cls, c, 8, stim, {'c_reuse': reuse, 'strip_forks': strip}, dvals, tvals, capture_time=tc)
+                    if res(w) != r0: out.append((cls, reuse, strip)); continue
+                    w.s_ppo_to_ppi(time=0.5)
+                    if st3(w) != st3(ref): out.append((cls, reuse, strip, 'state transfer'))
             return bool(out), f'results differ from WaveSim() for (class, c_reuse, strip_forks) in {out}'
-        if variant == 'sims':
+        if variant.startswith('sims'):
             ref = wsim.concrete_wave('cpu', c, 8, stim, {}, dvals, tvals)
             out = []
             for cls in ('cpu', 'gpu'):
@@ -330,8 +348,8 @@ def replay_wave(data):
                     w = wsim.CLS[cls](c, d, sims=nsims, c_caps=8)
                     for ln in range(nsims):
                         for i, v in stim.items():
-                            w.s[0, i, ln], w.s[2, i, ln] = wsim.VAL[v] if ln == lane else wsim.VAL['RF'[(ln + i) % 2]]
-                            w.s[1, i, ln] = tvals.get(i, 0.0) if ln == lane else 1.0 + ln
+                            w.s[0, i, ln], w.s[2, i, ln] = wsim.VAL[v] if ln == lane else ((ln + i) % 2, (ln + i) % 2)
+                            w.s[1, i, ln] = tvals.get(i, 0.0) if ln == lane else float(ln)
                     w.s_to_c(); w.c_prop(); w.c_to_s()
                     if res(w, lane) != res(ref): out.append((cls, nsims, lane))
             return bool(out), f'lane/batch dependence for (class, sims, lane) in {out}'
@@ -344,11 +362,12 @@ def replay_wave(data):
                 for mode in (0, 1):
                     d = np.zeros((ND, len(c.lines), 2, 2), dtype=np.float32)
                     for (k, l, p, q), v in dvals.items(): d[k, l, p, q] = v
-                    w = wsim.CLS[cls](c, d, sims=1, c_caps=8)
+                    w = wsim.CLS[cls](c, d, sims=1 + mode, c_caps=8)
                     for i, v in stim.items():
                         w.s[0, i, 0], w.s[2, i, 0] = wsim.VAL[v]; w.s[1, i, 0] = tvals.get(i, 0.0)
+                        if mode == 1: w.s[0, i, 1] = w.s[2, i, 1] = (1 + i) % 2
                     w.simctl_int[1] = mode
-                    if mode == 1: w.simctl_int[0] = sel
+                    if mode == 1: w.simctl_int[0] = [sel, 1 - sel]
                     w.s_to_c(); w.c_prop(seed=sel if mode == 0 else 1); w.c_to_s()
                     if res(w) != res(ref): out.append((cls, sel, mode))
         return bool(out), f'dataset selection differs for (class, dataset, mode) in {out}'
